@@ -179,6 +179,36 @@ for name, f in DYA.items():
     out.append('//@   ensures lift2_post_$R(c, a, b, %s, %s, %s, %s, %s, %s)' % (o(f), o(d['v10']), o(d['v01']), o(d['v11']), o(d['v20']), o(d['v02'])))
     out.append('//@   modifies $R.Value@{c}, $R.N@{c}, $R.Order@{c}, $R.Derivative@{c}, $R.Hessian@{c}, []$F@{q :: owns_$R(c, q)}')
     out.append('')
+# Pow: x^y through dyadicLazy when the exponent carries derivatives, through monadicLazy when it is a constant
+fpow = x**y
+dp = {'v10': sp.diff(fpow, x), 'v01': sp.diff(fpow, y), 'v11': sp.diff(fpow, x, y), 'v20': sp.diff(fpow, x, 2), 'v02': sp.diff(fpow, y, 2)}
+def instp(e, X='val(a)', Y='val(k)'):
+    t = pr(e)
+    t = re.sub(r'\bx\b', X, t)
+    return re.sub(r'\by\b', Y, t)
+out.append('//@ func (*$R).Pow [also: (*$R).POW]')
+out.append('//@   model split')
+out.append('//@   requires RI_$R(c) && RIc(a) && RIc(k) && sep_$R(c, a) && sep_$R(c, k) && constNoVars(a) && constNoVars(k) && noRealloc_$R(c, a, k)')
+out.append('//@   requires val(a) > 0')
+out.append('//@   panics_when order(a) >= 1 && order(k) >= 1 && nvars(a) != nvars(k)')
+D2 = 'dyadicLazy|realDyadicLazy'
+instb = lambda e: instp(e, 'val(a)', 'val(b)')
+out.append('//@   site %s @v0 v0 == %s' % (D2, instb(fpow)))
+out.append('//@   site %s @v10 call0(f1) == %s' % (D2, instb(dp['v10'])))
+out.append('//@   site %s @v01 call1(f1) == %s' % (D2, instb(dp['v01'])))
+out.append('//@   site %s @v11 call0(f2) == %s' % (D2, instb(dp['v11'])))
+out.append('//@   site %s @v20 call1(f2) == %s' % (D2, instb(dp['v20'])))
+out.append('//@   site %s @v02 call2(f2) == %s' % (D2, instb(dp['v02'])))
+M1 = 'monadicLazy|realMonadicLazy'
+out.append('//@   site %s @m0 v0 == %s' % (M1, instp(fpow)))
+out.append('//@   site %s @m1 call(f1) == %s' % (M1, instp(dp['v10'])))
+out.append('//@   site %s @m2 call(f2) == %s' % (M1, instp(dp['v20'])))
+op_ = lambda e: instp(e, 'old(val(a))', 'old(val(k))')
+out.append('//@   ensures isa(*$R, result) && as(*$R, result) == c')
+out.append('//@   ensures @dy old(order(k)) >= 1 ==> lift2_post_$R(c, a, k, %s, %s, %s, %s, %s, %s)' % (op_(fpow), op_(dp['v10']), op_(dp['v01']), op_(dp['v11']), op_(dp['v20']), op_(dp['v02'])))
+out.append('//@   ensures @mo old(order(k)) == 0 ==> lift1_post_$R(c, a, %s, %s, %s)' % (op_(fpow), op_(dp['v10']), op_(dp['v20'])))
+out.append('//@   modifies $R.Value@{c}, $R.N@{c}, $R.Order@{c}, $R.Derivative@{c}, $R.Hessian@{c}, []$F@{q :: owns_$R(c, q)}')
+out.append('')
 out.append('//@ end')
 out.append('')
 
@@ -193,8 +223,12 @@ COMP2 = {
     'LogAdd':   (log_(ex_(x) + ex_(y)), None),
     'LogSub':   (log_(ex_(x) - ex_(y)), 'x > y'),
 }
+RECV = '(*$R)'
+VALUEONLY = False
 def jetblock(name, f, req, two):
-    out.append('//@ func (*$R).%s' % name)
+    out.append('//@ func %s.%s' % (RECV, name))
+    if VALUEONLY:
+        out.append('//@   jetvalueonly')
     out.append('//@   jetspec %s' % pr(f))
     if req:
         out.append('//@   jetrequires %s' % req)
@@ -210,16 +244,73 @@ def jetblock(name, f, req, two):
         out.append('//@   jetalias c=b')
         out.append('//@   jetalias c=a=b')
     out.append('')
+def piecewise_block(name, pieces, last, note):
+    """pieces: [(upper bound text, sympy expr)], last: expr above the last bound. The spec of a function that is
+    evaluated through range-wise expansions: each piece is the standard expansion of the NAMED function on its range
+    (written here from the mathematics, not from the code)."""
+    def nest(fn):
+        t = pr(fn(last))
+        for ub, e in reversed(pieces):
+            t = 'ite(x <= %s, %s, %s)' % (ub, pr(fn(e)), t)
+        return t
+    out.append('//@ func %s.%s' % (RECV, name))
+    out.append('//   ' + note)
+    if VALUEONLY:
+        out.append('//@   jetvalueonly')
+    out.append('//@   jetspec %s' % nest(lambda e: e))
+    out.append('//@   jetd @dx %s' % nest(lambda e: sp.diff(e, x)))
+    out.append('//@   jetd @dxx %s' % nest(lambda e: sp.diff(e, x, 2)))
+    out.append('')
+PIECEWISE = [
+    ('Log1pExp', [('(0 - 37.0)', ex_(x)), ('18.0', log_(1 + ex_(x))), ('(2343279181116211.0 / 70368744177664.0)', x + ex_(-x))], x,
+     'log(1 + exp(x)): exp(x) below -37 (relative error < exp(-37)), exact in between, x + exp(-x) up to 33.3 (the float64 nearest to it, as in the code), x above (error < exp(-33.3)); receiver == operand is not claimed'),
+]
 out.append('// composite operations (jet-level symbolic execution over the proved primitives)')
 out.append('//@ for $R,$T in (Real64,@), (Real32,+)')
-out.append('//@ propsdefault C01$T C02$T C08$T')
+out.append('//@ propsdefault C01$T C02$T C08$T C09$T')
 for name, (f, req) in COMP1.items():
     jetblock(name, f, req, False)
 for name, (f, req) in COMP2.items():
     jetblock(name, f, req, True)
+for name, pieces, last, note in PIECEWISE:
+    piecewise_block(name, pieces, last, note)
+# |x| with the convention d|x|/dx = 0 at x = 0 (the generic method resets the result there); generic and concrete twin
+out.append('//@ func %s.Abs [also: %s.ABS]' % (RECV, RECV))
+if VALUEONLY:
+    out.append('//@   jetvalueonly')
+out.append('//@   jetspec ite(x >= 0, x, 0 - x)')
+out.append('//@   jetd @dx ite(x > 0, 1, ite(x < 0, 0 - 1, 0))')
+out.append('//@   jetd @dxx 0')
+out.append('//@   jetalias c=a')
+out.append('')
 out.append('//@ end')
 out.append('')
 
+RECV = '($S)'
+VALUEONLY = True
+out.append('// the same composites on the plain float scalars (value only)')
+out.append('//@ for $S,$T in (Float64,@), (Float32,+)')
+out.append('//@ propsdefault C02$T C09$T')
+for name, (f, req) in COMP1.items():
+    jetblock(name, f, req, False)
+for name, (f, req) in COMP2.items():
+    jetblock(name, f, req, True)
+for name, pieces, last, note in PIECEWISE:
+    piecewise_block(name, pieces, last, note)
+# |x| with the convention d|x|/dx = 0 at x = 0 (the generic method resets the result there); generic and concrete twin
+out.append('//@ func %s.Abs [also: %s.ABS]' % (RECV, RECV))
+if VALUEONLY:
+    out.append('//@   jetvalueonly')
+out.append('//@   jetspec ite(x >= 0, x, 0 - x)')
+out.append('//@   jetd @dx ite(x > 0, 1, ite(x < 0, 0 - 1, 0))')
+out.append('//@   jetd @dxx 0')
+out.append('//@   jetalias c=a')
+out.append('')
+out.append('//@ end')
+out.append('')
+
+RECV = '(*$R)'
+VALUEONLY = False
 # ops.json: coefficient triples of the primitives (and summaries of verified composites) for the jet evaluator
 import json
 ops = {}
